@@ -17,6 +17,8 @@ Cases: scenario i (seed = <seed>) draws a variant and its data:
  threads_bounded (~10%): as threads, but A's step is evaluate_bounded(q, projection, limit) whose projection function
    - called while the limit is lowered - lets B's step run to completion before it returns (deterministic overlap);
    B runs len/2 on a 40 element list (needs more frames than A's limit).
+ many_queries (3 fixed scenarios): ONE engine, 150 / 400 / 1000 queries of a two-goal clause started and left suspended after their first
+   answer(s), then all resumed to the end in reverse order: each gives exactly the four answers it gives alone.
  two_queries (~20%): ONE engine with an F1 / F2 program, two (sometimes three) of its queries (or the same query twice)
    over disjoint variables (in ~60% over dynamic facts, some with variables, asserted beforehand through the API), no
    database change while they run, next() calls merged in a drawn order; each query must yield exactly the
@@ -567,7 +569,46 @@ def _renumber(ops):
 LEN_SRC = 'len([],z).\nlen([_|T],s(N)) :- len(T,N).\nnat(z).\nnat(s(X)) :- nat(X).\n'
 
 
+def run_many(sc):
+    """MANY simultaneously suspended queries of one engine (each over its own variables): every one still produces the answers it
+    produces alone - there is no bound on how many may be open"""
+    from yldprolog.compiler import compile_prolog_from_string
+    real = S.RealEngine()
+    yp = real.yp
+    yp.load_script_from_string(compile_prolog_from_string('a(1). a(2).\nt(X, Y) :- a(X), a(Y).\nu(X) :- t(X, _), t(_, X).\n'))
+    want = [(1, 1), (1, 2), (2, 1), (2, 2)]
+    open_ = []
+    probs = []
+    try:
+        for j in range(sc['n']):
+            X, Y = yp.variable(), yp.variable()
+            q = yp.query('t', [X, Y])
+            got = []
+            for _ in range(sc['take']):
+                next(q)
+                got.append((E.to_python(X), E.to_python(Y)))
+            if got != want[:sc['take']]:
+                probs.append('query #%d (with %d others suspended) starts with %s' % (j, j, got))
+                break
+            open_.append((q, X, Y, got))
+        # all of them are suspended now: run them to the end in reverse order of creation
+        for j, (q, X, Y, got) in reversed(list(enumerate(open_))):
+            for _ in q:
+                got.append((E.to_python(X), E.to_python(Y)))
+            if got != want:
+                probs.append('query #%d resumed among %d suspended ones gives %s' % (j, len(open_), got))
+                break
+    except Exception as e:      # noqa: an exception is an observation here
+        probs.append('with %d queries suspended: %s: %s' % (len(open_), type(e).__name__, str(e)[:100]))
+    finally:
+        for q, _x, _y, _g in open_:
+            q.close()
+    return not probs, '; '.join(probs) or 'ok', True
+
+
 def scenario(seed, i, count):
+    if i in (3, 7, 11):
+        return dict(driver='s_c04', variant='many_queries', seed=seed, index=i, n={3: 150, 7: 400, 11: 1000}[i], take={3: 1, 7: 2, 11: 1}[i])
     rng = random.Random('c04/%d/%d' % (seed, i))
     progs, two = program_pool(seed, max(20, min(count, 300)))
     r = rng.random()
@@ -630,6 +671,8 @@ def scenario(seed, i, count):
 
 
 def run_scenario(sc):
+    if sc['variant'] == 'many_queries':
+        return run_many(sc)
     if sc['variant'] == 'two_queries':
         return run_queries(sc)
     return run_two(sc)
